@@ -62,14 +62,28 @@ def search(bdir, row, hmcs, net, threads, hashmb):
             t_end = time.time() + 60
             deep = False
             lines_all = []
+            # every search runs until an exact line of depth >= 4 is out (as before); a series needs searches deep enough to leave
+            # (and later to meet) stored mate scores: in addition depth 16, or 1.5 s after the first pv line (table generation excluded)
+            series = len(hmcs) > 1
+            deep4 = False
+            t_first = None
+            t_last = time.time()
             while time.time() < t_end and not deep:
-                lines, _ = eng.read_until(lambda l: l.startswith("info depth") and " pv " in l, 2.0)
+                lines, _ = eng.read_until(lambda l: l.startswith("info depth") and " pv " in l, 0.3 if series else 2.0)
                 lines_all += lines
+                if lines:
+                    t_last = time.time()
                 for l in lines:
                     d = uci.parse_info(l, row["wtm"])
+                    if d and t_first is None:
+                        t_first = time.time()
                     if d and d["depth"] >= 4 and d["bound"] == "":
+                        deep4 = True
+                    if d and d["depth"] >= 16 and d["bound"] == "":
                         deep = True
-                if not lines:
+                if deep4 and (not series or time.time() - t_first > 1.5):
+                    deep = True
+                if not lines and time.time() - t_last >= 2.0:
                     # search may have ended by itself (mate found): nothing more will come
                     if any(" pv " in x for x in lines_all):
                         break
@@ -102,7 +116,9 @@ def run(tier, seed):
     wd = vlib.rundir(PID)
     rnd = random.Random(seed * 13 + 5)
     sz = SIZES[tier]
-    classes = rnd.sample(c12.THREE, min(3, sz["classes"])) + rnd.sample(c12.FOUR, max(1, sz["classes"] - 3))
+    # 4-man classes with long mates are always present: only they can put the 50-move boundary at small clock values
+    longm = [rnd.choice(["KBNK", "KKBN"]), rnd.choice(["KQKR", "KRKQ", "KBBK", "KKBB"])]
+    classes = rnd.sample(c12.THREE, min(2, sz["classes"])) + longm + rnd.sample([c for c in c12.FOUR if c not in longm], max(1, sz["classes"] - 4))
     if tier == "thorough":
         classes = c12.THREE + c12.FOUR
 
@@ -118,6 +134,8 @@ def run(tier, seed):
     jobs = []
     for c, meta, rows in tabs:
         for r in rows:
+            if not r.get("succ"):
+                continue        # mate / stalemate position: nothing to search (C03 covers the answer given for such roots)
             hmc = rnd.choice([0, 0, rnd.randint(1, 60), rnd.randint(60, 99), rnd.randint(85, 99)])
             v = r["v"]
             if v not in (0, 99999) and rnd.random() < 0.45:
@@ -126,13 +144,17 @@ def run(tier, seed):
                 edge = (101 - 2 * n) if v > 0 else (100 - 2 * n)
                 hmc = min(99, max(0, edge + rnd.choice([0, 0, -1, 1])))
             hmcs = [hmc]
-            if v not in (0, 99999) and rnd.random() < 0.4:
+            nmate = (32000 - abs(v)) // 2 if v not in (0, 99999) else 0
+            if v not in (0, 99999) and rnd.random() < (0.8 if nmate >= 11 else 0.3):
                 # the same root again later in the game: first while the mate still fits, then when it does not fit any more
-                # (same engine process, hash table kept: results cached at the earlier clock must not be replayed)
-                n = (32000 - abs(v)) // 2
-                edge = (101 - 2 * n) if v > 0 else (100 - 2 * n)
-                h1 = min(99, max(0, edge - rnd.randint(0, 7)))
-                h2 = min(99, max(0, edge + 1 + rnd.randint(0, 3)))
+                # (same engine process, hash table kept: results cached at the earlier clock must not be replayed).  The clocks are
+                # chosen inside one coarse bucket of Position::historyHash (< 40, decades up to 79) where the boundary allows it:
+                # for positions with more men than the tablebases cover those clocks share a hash key, for <= 4 men they must not.
+                edge = (101 - 2 * nmate) if v > 0 else (100 - 2 * nmate)
+                h2 = min(99, max(1, edge + 1 + rnd.randint(0, 2)))
+                bstart = 0 if h2 < 40 else (10 * (h2 // 10) if h2 < 80 else h2 - 1)
+                h1 = min(edge, max(bstart, edge - rnd.randint(0, 7)))
+                h1 = max(0, h1)
                 hmcs = [h1, h2] if h1 < h2 else [hmc]
                 if len(hmcs) == 2 and rnd.random() < 0.3:
                     hmcs.append(min(99, h2 + rnd.randint(1, 9)))
